@@ -29,6 +29,9 @@ GatedCancelCfgs == {[x EXCEPT !.gated = TRUE] : x \in CancelCfgs}
 \* retry waits (the wait is an internal step that a cancellation interrupts)
 WaitCfgs == {[Base EXCEPT !.n = n, !.c = c, !.N = 2, !.w = 1, !.cancel = TRUE, !.gated = TRUE, !.outs = {"err"}] :
               n \in 1..MaxItems, c \in 0..MaxC}
+\* exec functions that return an error Result with a nil error
+EresCfgs == {[Base EXCEPT !.n = n, !.c = c, !.N = 2, !.stopmode = s, !.outs = {"ok", "err", "eres"}, !.gated = TRUE] :
+              n \in 1..MaxItems, c \in 0..MaxC, s \in BOOLEAN}
 \* the empty batch
 EmptyCfgs == {[Base EXCEPT !.n = 0, !.c = c, !.acts = {0, 1, 2}, !.posterr = TRUE] : c \in 0..MaxC}
 
@@ -39,6 +42,7 @@ Cfgs == CASE Family = "seq"         -> SeqCfgs
           [] Family = "gatedcancel" -> GatedCancelCfgs
           [] Family = "wait"        -> WaitCfgs
           [] Family = "empty"       -> EmptyCfgs
+          [] Family = "eres"        -> EresCfgs
 
 MCInit == \E c \in Cfgs : InitWith(c)
 MCSpec == MCInit /\ [][Next]_vars
@@ -56,6 +60,7 @@ InvC09 == Terminal => P!All(P!C09_Clauses(cfg, D))
 InvC11 == Terminal => P!All(P!C11_Clauses(cfg, D))
 InvC18 == Terminal => P!All(P!C18B_Clauses(cfg, D))
 InvC04 == Terminal => P!All(P!C04B_Clauses(cfg, D))
+InvC17 == Terminal => P!All(P!C17B_Clauses(cfg, D))
 \* no deadlock: the only state without successor is the terminal one
 NoDeadlock == Terminal \/ ENABLED Next
 
